@@ -21,6 +21,25 @@ CHECKS = {
 }
 
 
+CHECKS["C12"] = dict(
+    pkg="./pools", test="TestExplorePersist", spec_dir="PoolContract", impl_module="PersistImpl",
+    design=[("PersistDesign", "MC_persist.cfg", 8)],
+    watch=["RestartSame", "RestartUnique", "FailAgreement", "RemoteApplied", "ReloadSame"],
+    assumptions=[
+        "the backing store is the harness' scripted allocator.Store (synchronous, failure injected per call, query order chosen per restart); a crash is modelled as dropping the allocator object and starting a new one on the same store - for DistributedAllocator every public call performs at most one store write, so 'a stop after every store operation' coincides with a restart after every call",
+        "remote changes are delivered by invoking the registered watch callback synchronously",
+        "address -> unit projection as in C01",
+    ],
+    explanation="PersistImpl.tla judges every restart / failed write / remote change / marshal round trip observed on the real DistributedAllocator, IPAllocator, EpochBitmapAllocator "
+                "against the C12 clauses; PersistDesign.tla is an implementation-shaped model of load/remote-apply checked exhaustively by TLC.",
+)
+
+import glob, importlib, os
+for _f in sorted(glob.glob(os.path.join(os.path.dirname(os.path.abspath(__file__)), "fam_*.py"))):
+    _m = importlib.import_module(os.path.basename(_f)[:-3])
+    CHECKS.update(getattr(_m, "CHECKS", {}))
+
+
 def run(prop, tier, seed, replay):
     if prop not in CHECKS:
         print("unknown property", prop, file=sys.stderr)
